@@ -353,6 +353,11 @@ def post(cfg, inp, ob):
     for k, w in ob.items():
         out += wf_obligations(k, w)
     p = cfg['part']
+    if p == 'argcombo' and cfg['combo'] in ('like_signed_nint_frac', 'resize_signed_nint_frac', 'template_signed_nint_frac'):
+        # sign, integer length and fraction length given together: the word follows arithmetically, with the *new* sign bit
+        s0, n0, f0 = cfg['x']
+        s1, ni = (not s0), cfg['k'] + 1
+        out.append(('requested_sizes_honoured', ob['r0']['fmt'] == [s1, ni + f0 + int(s1), f0] and ob['r0']['n_int'] == ni))
     if p in ('satfloat', 'satint'):
         s, n, f = cfg['signed'], cfg['n_word'], cfg['n_frac']
         lo, hi = SP.limits(s, n)
